@@ -233,6 +233,7 @@ func literalLeaves() []string {
 	}
 	return out
 }
+
 var typeLeaves = []string{"T", "int"}
 var typeLeavesExtra = []string{"p.T", "html", "error"}
 
